@@ -1,11 +1,13 @@
 #!/bin/bash
-# usage: tools/seedtest.sh <dir with patch.diff> <PROP> [extra cqv args]
-# applies the seeded change to /repo's working tree, runs the check, reverts. Never commits.
+# usage: tools/seedtest.sh <seed dir with patch.diff> <PROP> [extra cqv args]
+# Runs the check of PROP against a scratch worktree of /repo HEAD with the seeded change applied
+# (CQV_REPO), so that /repo itself is never modified while other work reads it.  Removes the worktree.
 d=$(realpath $1); p=$2; shift 2
-if ! git -C /repo diff --quiet; then echo "repo dirty"; exit 3; fi
-if ! git -C /repo apply --3way "$d/patch.diff" 2>/dev/null && ! git -C /repo apply "$d/patch.diff"; then echo "patch does not apply"; exit 3; fi
-git -C /repo reset -q 2>/dev/null
-timeout 3000 /verif/bin/cqv check $p "$@" 2>&1 | grep -v "^\[$p\] c.* ok " | tail -12
+wt=/tmp/seedrepo_$$_$(basename $d)
+git -C /repo worktree add -q --detach $wt HEAD || exit 3
+trap "git -C /repo worktree remove --force $wt >/dev/null 2>&1; rm -rf $wt; git -C /repo worktree prune" EXIT
+if ! git -C $wt apply "$d/patch.diff"; then echo "patch does not apply"; exit 3; fi
+CQV_REPO=$wt timeout 3400 /verif/bin/cqv check $p "$@" 2>&1 | grep -v "^\[$p\] c.* ok " | tail -15
 rc=${PIPESTATUS[0]}
-git -C /repo checkout -- . && git -C /repo status --short | grep -v _build
 echo "exit=$rc"
+exit $rc
